@@ -244,14 +244,17 @@ def run(ctx):
         terms.append("FIPos %s %s %s" % (dl, coq_nat_list(lines), coq_list(pos, lambda p: "(Some %s)" % P(p))))
         meta.append(("pos", t, {"lines": lines}))
         spans = [(it, sp) for it, sp in zip(items, o["spans"]) if sp]
-        terms.append("FISpans %s %s %s" % (dl, coq_nat_list(lines), coq_list(
+        if spans:
+          terms.append("FISpans %s %s %s" % (dl, coq_nat_list(lines), coq_list(
             spans, lambda x: "(%d%%nat, %d%%nat, %s, %s, %s)" % (x[0][0], x[0][1], coq_bool(x[0][2]), P(x[1][0]), P(x[1][1])))))
-        meta.append(("spans", t, {"spans": spans}))
-        terms.append("FINodes %s %s %s" % (dl, coq_nat_list(lines), coq_list(
+          meta.append(("spans", t, {"spans": spans}))
+        if o["nodes"]:
+          terms.append("FINodes %s %s %s" % (dl, coq_nat_list(lines), coq_list(
             o["nodes"], lambda n: "(%s, %s, %s, %s)" % (P(items[n[0]]), P(items[n[1]]), P(n[2]), P(n[3])))))
-        meta.append(("nodes", t, {"nodes": o["nodes"]}))
-        terms.append("FIErrs %s %s %s" % (dl, coq_nat_list(lines), coq_list(errpos, lambda e: "(%d, %d, %d)%%nat" % tuple(e))))
-        meta.append(("errs", t, {"errs": errpos}))
+          meta.append(("nodes", t, {"nodes": o["nodes"]}))
+        if errpos:
+          terms.append("FIErrs %s %s %s" % (dl, coq_nat_list(lines), coq_list(errpos, lambda e: "(%d, %d, %d)%%nat" % tuple(e))))
+          meta.append(("errs", t, {"errs": errpos}))
         # ---- direct oracle ----
         bogus = [p for p in lines[1:] if p not in true_nl]
         if bogus or lines[0] != 0:
